@@ -68,6 +68,7 @@ package bed
 //@   requires r.BedType == 3 || r.BedType == 4 || r.BedType == 5 || r.BedType == 6 || r.BedType == 12
 //@   ensures [value-or-error] (f != nil && ref(f) != 0) || err != nil
 //@   ensures [no-data-loss]   lastErr(r.r) == io.EOF && lastLen(r.r) > 0 ==> splitCount(0) > old(splitCount(0))
+//@   assert call bytes.TrimSpace :: len(arg0) == lastLen(r.r)
 
 // ---- writer (C02): reported byte count == bytes accepted by the underlying writer ----
 //@ func (Bed).canBed
